@@ -116,7 +116,7 @@ class Stmts:
                                          th.vlen(vt) == n, origin=f'unpacking {self.src(tgt)} needs exactly {n} items', path_kind='unpack'))
                 st.add(th.vlen(vt) == n)
                 for k, t in enumerate(tgt.elts):
-                    self.assign_target(t, VVal(z3.Select(th.sq_arr(vt), k), kind=self.shape_of(self.src(t))), st, node)
+                    self.assign_target(t, self.mkval(z3.Select(th.sq_arr(vt), k), self.shape_of(self.src(t))), st, node)
                 return
             raise OutOfSubset('unpack of ' + type(val).__name__, node)
         if isinstance(tgt, ast.Attribute):
@@ -140,6 +140,8 @@ class Stmts:
             idx = self.ev1(tgt.slice, st)[0]
             kt = self.toVal(idx, st)
             vt = self.toVal(val, st)
+            if isinstance(cont, (VMapB, VListB)):
+                self.frame_ok(st, f'{self.src(tgt)} = ...')
             if isinstance(cont, VMapB):
                 newc = VMapB(z3.Store(cont.has, kt, True), z3.Store(cont.get, kt, vt))
             elif isinstance(cont, VListB):
@@ -238,7 +240,7 @@ class Stmts:
         return [('fall', None, st)]
 
     def st_FunctionDef(self, node, st):
-        st.env[node.name] = VFunc(node, st.env, self.cur_module, f'{self.cur_qual}.<locals>.{node.name}')
+        st.env[node.name] = VFunc(node, st.env, self.cur_module, f'{self.cur_qual}.<locals>.{node.name}', frame=st.env.get('$frame'))
         return [('fall', None, st)]
 
     def st_Global(self, node, st):
@@ -307,7 +309,7 @@ class Stmts:
             th = self.th
             if not isinstance(cm, VVal):
                 raise OutOfSubset('context manager value', node)
-            entered = VVal(th.fn('cm_enter', th.Val, th.Val)(cm.term), kind=self.shape_of('with:' + self.src(item.context_expr)))
+            entered = self.mkval(th.fn('cm_enter', th.Val, th.Val)(cm.term), self.shape_of('with:' + self.src(item.context_expr)))
             if item.optional_vars is not None:
                 self.assign_target(item.optional_vars, entered, s, node)
             outs = []
